@@ -32,7 +32,7 @@ META["C14"] = dict(
     technique="Lean 4 proof (codecs, composition) + exhaustive-by-configuration testing of library compressors",
 )
 META["C06"] = dict(
-    text="Lean 4 theorems that every decoding step Selium implements is total: MessageCodec::decode and the whole FramedRead stream (c06_frame_total, c06_stream_total), decode_message_batch (c06_batch_total, c06_batch_bounded), String/Bytes/Bincode codecs for every schema (c06_*_total), and the subscriber pipeline for a total decompressor (c06_pipeline_total_partial); models carry an explicit panic result, the correspondence runs each real decoder in a child process under an address-space limit and compares outcome classes",
+    text="Lean 4 theorems that every decoding step Selium implements is total: MessageCodec::decode and the whole FramedRead stream (c06_frame_total, c06_stream_total), decode_message_batch (c06_batch_total, c06_batch_bounded), String/Bytes/Bincode codecs for every schema (c06_*_total), the subscriber pipeline for a total decompressor (c06_pipeline_total_partial), and Subscriber::poll_next itself as a state machine with its stack depth (c06_subscriber_poll_terminates, c06_subscriber_stack_bounded + the regenerated obligation c06_subscriber_does_not_recurse, c06_subscriber_total_partial); models carry an explicit panic result, the correspondence runs each real decoder in a child process under an address-space limit and compares outcome classes; a library Subscriber is fed arbitrary frames (incl. runs of 30000 frames that yield nothing) by a raw publisher in a guarded child",
     design_ref="DESIGN.md section 6, C06",
     note="library decompressors and serde internals are outside the model (hypothesis Compressor.Total, exercised in the guarded child)",
     technique="Lean 4 totality proofs over models with explicit panics + guarded-child differential runs",
@@ -97,7 +97,7 @@ META["C03"] = dict(
 )
 
 META["C04"] = dict(
-    text="Lean 4 invariant proof over a model of the state shared by a Requestor and its clones (id counter, pending-request map, per-call timeout, reply reader) against an adversarial reply stream: c04_own_reply (every delivered reply carries exactly the id of the call that got it; a reply goes to at most one call and a call gets at most one reply), c04_late_reply_dropped, c04_timeout, c04_ids_distinct (< 2^32 calls); composed with C02 for separate streams; tied to the code by running real requestors against a scripted raw replier over loopback QUIC",
+    text="Lean 4 invariant proof over a model of the state shared by a Requestor and its clones (id counter, pending-request map, per-call timeout, reply reader) against an adversarial reply stream: c04_own_reply (every delivered reply carries exactly the id of the call that got it; a reply goes to at most one call and a call gets at most one reply), c04_late_reply_dropped, c04_timeout, c04_ids_distinct (< 2^32 calls); plus the honest exchange closed end to end over the models of the library Replier (listen answers in order with the request's own headers), the router's tagging / routing and the decimal printing / parsing of both ids: c04_replier_answers_in_order_with_request_headers, c04_echoed_reply_reaches_its_requestor, c04_request_id_roundtrip, c04_honest_exchange_completes; composed with C02 for separate streams; tied to the code by running real requestors against a scripted raw replier, and a real Replier against a raw requestor, over loopback QUIC",
     design_ref="DESIGN.md section 6, C04",
     note="trusts tokio oneshot/timeout and the transport; cross-stream isolation is C02",
     technique="Lean 4 invariant proof over hand model + end-to-end differential correspondence",
